@@ -2,6 +2,7 @@
 C18 — with deduplication on, a message id is stored at most once per partition.
 -/
 import Iggy.Log.SpecRun
+import Iggy.Log.RefineRun
 namespace Iggy.Props.C18
 open Iggy.Log
 
@@ -48,5 +49,11 @@ theorem restart_rebuilds (p : SPart) (ids : List Nat) (h : p.restart.ids = some 
 example : ((SPart.run exCfg none
     [.append 1 [⟨5, 50, 1⟩, ⟨5, 50, 2⟩, ⟨6, 50, 3⟩], .restart, .append 2 [⟨6, 50, 4⟩, ⟨7, 50, 5⟩]]).msgs.map
       (fun m => (m.off, m.id))) = [(0, 5), (1, 6), (2, 7)] := by decide
+
+
+/-! ## on the storage model L1 -/
+
+theorem l1_ids_nodup {cfg : Cfg} {p : Part} (hseg : 0 < cfg.segSize) (r : Reach cfg p) (hd : p.dedup.isSome) :
+    (p.msgs.map (·.id)).Nodup := reach_ids_nodup hseg r hd
 
 end Iggy.Props.C18
